@@ -6,7 +6,7 @@ use crate::util::*;
 use stun_types::attribute::*;
 use stun_types::message::*;
 
-pub const ORD_TYPES: [u16; 12] = [0x0006, 0x8022, 0x0024, 0x7777, 0x8888, 0x0009, 0x000a, 0x0020, 0x0014, 0x001d, 0x8029, 0x0025];
+pub const ORD_TYPES: [u16; 13] = [0x0006, 0x8022, 0x0024, 0x7777, 0x8888, 0x0009, 0x000a, 0x0020, 0x0014, 0x001d, 0x8029, 0x0025, 0x0000];
 
 pub fn creds_short(p: &str) -> MessageIntegrityCredentials { ShortTermCredentials::new(p.to_owned()).into() }
 pub fn creds_long(u: &str, p: &str, r: &str) -> MessageIntegrityCredentials { LongTermCredentials::new(u.to_owned(), p.to_owned(), r.to_owned()).into() }
@@ -54,7 +54,7 @@ pub fn gen_message(rng: &mut Rng, key: &[u8]) -> Vec<u8> {
             'x' => { refmsg::add_integrity(&mut msg, key, rng.coin(), 32.min(20 + 12 * (rng.coin() as usize))); let l = msg.len(); msg[l - 1] ^= 1; }
             'f' => refmsg::add_fingerprint(&mut msg),
             'g' => { refmsg::add_fingerprint(&mut msg); let l = msg.len(); msg[l - 2] ^= 0x10; }
-            'o' => { let ty = *rng.pick(&[0x8022u16, 0x7777, 0x0024]); let v = plausible_value(rng, ty); append_attr(&mut msg, ty, &v); }
+            'o' => { let ty = *rng.pick(&[0x8022u16, 0x7777, 0x0024, 0x0000]); let v = plausible_value(rng, ty); append_attr(&mut msg, ty, &v); }
             'M' => { let n = *rng.pick(&[16usize, 24, 0, 19]); let v = rng.bytes(n); append_attr(&mut msg, MI, &v); }
             'S' => { let n = *rng.pick(&[12usize, 18, 36, 0, 15]); let v = rng.bytes(n); append_attr(&mut msg, MI256, &v); }
             _ => {}
